@@ -110,13 +110,25 @@ ArrCands(Sc, defs, d, lvl) ==
            \o [j \in DOMAIN c |-> JArr(<<g, c[j]>>)]
     ELSE << JArr(<< >>), JArr(<<JInt(1), JStr(<<"a">>)>>) >>
 
+(* union of two objects (members of b win); for anyOf: an instance that is valid for two branches at
+   once and carries the members of both *)
+ObjUnion(a, b) == IF a.t # "obj" \/ b.t # "obj" THEN b
+                  ELSE LET ka == SelectSeq(a.k, LAMBDA k : ~HasKey(b, k))
+                       IN JObj(ka \o b.k, [i \in DOMAIN ka |-> Get(a, ka[i])] \o b.v)
+AnyOfUnions(Sc, defs, d, lvl) ==
+    IF lvl > 0 THEN << >>
+    ELSE LET g == [i \in DOMAIN Sc.anyOf |-> GoodL(Sc.anyOf[i], defs, d, lvl + 1)]
+             ps == SetToSeq({ p \in (DOMAIN g) \X (DOMAIN g) : p[1] # p[2] /\ g[p[1]].t = "obj" /\ g[p[2]].t = "obj" })
+         IN [k \in DOMAIN ps |-> ObjUnion(g[ps[k][1]], g[ps[k][2]])]
+
 InstL(Sc, defs, d, lvl) ==
     IF SHas(Sc, "bool") THEN << JNull, JInt(1) >>
     ELSE IF SHas(Sc, "ref") THEN (IF d = 0 THEN << >> ELSE InstL(defs[Sc.ref], defs, d - 1, lvl))
     ELSE
       (IF SHas(Sc, "enum") THEN Sc.enum \o << JStr(<<"n", "o", "p", "e">>), JInt(77) >> ELSE << >>)
       \o (IF SHas(Sc, "oneOf") THEN Flat([i \in DOMAIN Sc.oneOf |-> InstL(Sc.oneOf[i], defs, d, lvl)]) ELSE << >>)
-      \o (IF SHas(Sc, "anyOf") THEN Flat([i \in DOMAIN Sc.anyOf |-> InstL(Sc.anyOf[i], defs, d, lvl)]) ELSE << >>)
+      \o (IF SHas(Sc, "anyOf") THEN Flat([i \in DOMAIN Sc.anyOf |-> InstL(Sc.anyOf[i], defs, d, lvl)])
+                                     \o AnyOfUnions(Sc, defs, d, lvl) ELSE << >>)
       \o (IF SHas(Sc, "allOf") THEN Flat([i \in DOMAIN Sc.allOf |-> InstL(Sc.allOf[i], defs, d, lvl)]) ELSE << >>)
       \o (IF SHas(Sc, "enum") THEN << >>
           ELSE Flat([i \in DOMAIN TypeSeq(Sc) |-> ScalarCands(Sc, TypeSeq(Sc)[i])]))
